@@ -452,6 +452,7 @@ pub fn strat(max_lines: usize) -> impl Strategy<Value = FuzzCase> {
 pub fn run(ctx: &RunCtx) -> Vec<PartOutcome> {
     let n = ctx.tier.pick(12_000, 300_000);
     let mut parts = vec![explore(ctx, "sessions", n, || strat(30), check)];
+    parts.push(explore_with(ctx, "tcp_smoke", ctx.tier.pick(24, 400), 20, crate::checks::wirechecks::strat, crate::checks::wirechecks::c05_tcp_smoke));
     if ctx.tier == Tier::Thorough {
         parts.push(crate::fuzzdec::libfuzzer_part(ctx, "session", 30_000, 612));
     }
@@ -461,6 +462,7 @@ pub fn run(ctx: &RunCtx) -> Vec<PartOutcome> {
 pub fn replay(part: &str, input: &Value) -> Option<Result<Result<(), Viol>, String>> {
     match part {
         "sessions" => Some(replay_input::<FuzzCase>(input, check)),
+        "tcp_smoke" => Some(replay_input::<crate::checks::wirechecks::WireCase>(input, crate::checks::wirechecks::c05_tcp_smoke)),
         "libfuzzer_session" => Some(crate::fuzzdec::replay_bytes_case(input)),
         _ => None,
     }
